@@ -10,4 +10,4 @@ for c in "$@"; do
   echo "== $c"; timeout 1500 ./check $c quick 2>/dev/null | grep -E "VIOLATION|KNOWN" -A1 | head -6; echo "rc=${PIPESTATUS[0]}"
 done
 git -C /repo checkout -- .
-rm -rf /verif/evidence; mv /verif/.build/evidence_backup /verif/evidence
+rsync -a --delete /verif/.build/evidence_backup/ /verif/evidence/; rm -rf /verif/.build/evidence_backup   # the directory itself never disappears
